@@ -64,7 +64,7 @@ pub fn drive(a: &Args) -> i32 {
             // newcomers: further real nodes that connect to node 0 while its operations are in flight (the connect handler
             // takes the routing-table and peer-bookkeeping locks that lookups and served requests also take)
             let n_old = c.reals.len();
-            let n_new = if seg % 2 == 0 { rng.gen_range(1..=5usize) } else { 0 };
+            let n_new = if real && seg % 2 == 0 { 8 } else if seg % 2 == 0 { rng.gen_range(1..=5usize) } else { 0 };
             for j in 0..n_new {
                 let id = net::hex_id(&mut rng);
                 match net::spawn_real_ct(&c.hub, &id, &net::addr_for(200 + j), spec.request_timeout, spec.k, spec.conn_timeout_mult).await {
@@ -80,6 +80,35 @@ pub fn drive(a: &Args) -> i32 {
             let ms = move || start.elapsed().as_millis() as u64;
             let node = &c.reals[0];
             let log: Arc<Mutex<Vec<Value>>> = Arc::new(Mutex::new(Vec::new()));
+            // lock stress (real threads only, every other run): tasks that ask node 0 for its local knowledge in a tight loop
+            // - the code path every lookup round and every served FIND_* request runs - while newcomers connect; a lock-order
+            // inversion between that path and the connect handler needs thousands of attempts to strike
+            let stress = real && seg % 2 == 0;
+            let mut nstress = 0;
+            let mut stress_hs = Vec::new();
+            if stress {
+                nstress = 8;
+                let dur = Duration::from_millis(1500);
+                for o in 0..nstress {
+                    let m = node.mgr.clone();
+                    let log2 = log.clone();
+                    let mut key = [0u8; 32];
+                    rng.fill(&mut key);
+                    stress_hs.push(tokio::spawn(async move {
+                        let s = ms();
+                        let t0 = tokio::time::Instant::now();
+                        let mut iters = 0u64;
+                        while t0.elapsed() < dur {
+                            let _ = m.find_closest_nodes_local(&key, 8).await;
+                            iters += 1;
+                            if iters % 64 == 0 {
+                                tokio::task::yield_now().await;
+                            }
+                        }
+                        log2.lock().expect("log").push(json!({"o":100 + o,"kind":"lookup","start":s,"end":ms(),"ok":true,"iters":iters}));
+                    }));
+                }
+            }
             // operations on node 0
             let nops = rng.gen_range(1..8);
             let mut hs = Vec::new();
@@ -121,9 +150,23 @@ pub fn drive(a: &Args) -> i32 {
                 let m = c.reals[i].mgr.clone();
                 let addr = node.addr.clone();
                 let at = rng.gen_range(0..3000u64) / scale;
+                let hub = c.hub.clone();
+                let (my_id, my_tr, its_id, its_tr) = (c.reals[i].id.clone(), c.reals[i].transport.clone(), node.id.clone(), node.transport.clone());
+                let again = real && seg % 2 == 0;
                 dials.push(tokio::spawn(async move {
                     tokio::time::sleep(Duration::from_millis(at)).await;
                     let _ = m.connect_to_peer(&addr).await;
+                    if again {
+                        // the connection is closed and opened again a few times: more connect events for node 0
+                        for _ in 0..4 {
+                            tokio::time::sleep(Duration::from_millis(60)).await;
+                            hub.unlink(&my_id, &its_id);
+                            let _ = my_tr.disconnect_peer(&its_id).await;
+                            let _ = its_tr.disconnect_peer(&my_id).await;
+                            tokio::time::sleep(Duration::from_millis(40)).await;
+                            let _ = m.connect_to_peer(&addr).await;
+                        }
+                    }
                 }));
             }
             // peers turning silent mid-operation
@@ -156,7 +199,7 @@ pub fn drive(a: &Args) -> i32 {
             let mut unfinished = 0;
             // one common deadline: hanging operations are waited for together, not one after the other
             let deadline = tokio::time::Instant::now() + horizon;
-            for h in hs {
+            for h in hs.into_iter().chain(stress_hs) {
                 if tokio::time::timeout_at(deadline, h).await.is_err() {
                     unfinished += 1;
                 }
@@ -180,12 +223,16 @@ pub fn drive(a: &Args) -> i32 {
                 .collect();
             let ops = log.lock().expect("log").clone();
             let nodes = c.reals.len();
-            c.shutdown().await;
+            if real {
+                c.shutdown_within(Duration::from_secs(5)).await;
+            } else {
+                c.shutdown().await;
+            }
             tokio::time::sleep(Duration::from_millis(if real { 1500 } else { 120_000 })).await;
             net::settle().await;
             let tasks_after = tokio::runtime::Handle::current().metrics().num_alive_tasks();
             events.push(json!({"ev":"Run","mult": if real { 4 } else { 1 },"mode": if real { "real" } else { "virtual" },"nodes":nodes,"peers":peers_known,"timeout":TIMEOUT_MS,"delay":spec.delay_max_ms,"silenced":silenced,"newcomers":n_new,
-                               "issued":nops,"ops":ops,"unfinished":unfinished,"stop_call":stop_call,"stop_ret":stop_ret,
+                               "issued":nops + nstress,"stress":nstress,"ops":ops,"unfinished":unfinished,"stop_call":stop_call,"stop_ret":stop_ret,
                                "after_stop":after.len(),"after_stop_ops":after,"tasks_before":tasks_before,"tasks_after":tasks_after}));
         });
         drop(rt);
